@@ -411,6 +411,13 @@ class IcapStub:
                     pos += step
                     n += 1
                     time.sleep(0.002)
+            elif gate and len(wire) > 16384:
+                # a long reply: the decisive part first, then let the held-back virgin bytes flow (a client that waits for the gate
+                # does not read, and squid would stop reading us)
+                c.sendall(wire[:8192])
+                time.sleep(0.03 * VERIF_SLOW)
+                self.event(gate).set()
+                c.sendall(wire[8192:])
             else:
                 c.sendall(wire)
         except OSError:
